@@ -562,7 +562,13 @@ impl<'input> Parser<'input> {
             .map(Result::Ok)
             .chain(self.lexer.clone())
             .filter_map(Result::ok)
-            .filter(|token| !matches!(token.kind(), TokenKind::Whitespace | TokenKind::Comment))
+            // Commas are ignored tokens too
+            .filter(|token| {
+                !matches!(
+                    token.kind(),
+                    TokenKind::Whitespace | TokenKind::Comment | TokenKind::Comma
+                )
+            })
             .nth(n - 1)
     }
 
